@@ -1,10 +1,10 @@
 import inspect
 import math
-from dataclasses import dataclass
+from dataclasses import dataclass, replace
 from itertools import count
 from types import CodeType
 
-from .mro import sort_types
+from .mro import Order, sort_types, typeorder
 from .recode import generate_dependent_dispatch
 from .utils import MISSING, subtler_type
 from .utils import _verif_order
@@ -63,19 +63,28 @@ class Candidate:
     priority: float
     specificity: tuple
     tiebreak: int
+    types: tuple = ()
+    signature: object = None
 
     def sort_key(self):
         return self.priority, sum(self.specificity), self.tiebreak
 
     def dominates(self, other):
-        if self.priority > other.priority:
-            return True
-        elif self.specificity != other.specificity:
+        if self.priority != other.priority:
+            return self.priority > other.priority
+        elif self.types != other.types:
+            # The specificity levels only give a linear extension of the type
+            # order, so unrelated types must be told apart with typeorder.
             return all(
-                s1 >= s2 for s1, s2 in zip(self.specificity, other.specificity)
+                typeorder(t1, t2) in (Order.LESS, Order.SAME)
+                for t1, t2 in zip(self.types, other.types)
             )
-        else:
+        elif self.signature == other.signature:
+            # Only a method that was replaced by one with the same signature
+            # is pushed down by its tiebreak
             return self.tiebreak > other.tiebreak
+        else:
+            return False
 
 
 class MultiTypeMap(dict):
@@ -103,6 +112,7 @@ class MultiTypeMap(dict):
         self.tiebreaks = {}
         self.dependent = {}
         self.type_tuples = {}
+        self.signatures = {}
         self.empty = MISSING
         self.key_error = key_error
         self.name = name
@@ -154,12 +164,23 @@ class MultiTypeMap(dict):
             for c in candidates:
                 specificities.setdefault(c, []).append(results[c])
 
+        def _registered_types(handler):
+            # The types the handler was registered with for the given arguments
+            tup = self.type_tuples[handler]
+            named = dict(t for t in tup if isinstance(t, tuple))
+            return tuple(
+                named[t[0]] if isinstance(t, tuple) else tup[i]
+                for i, t in enumerate(obj_t_tup)
+            )
+
         candidates = [
             Candidate(
                 handler=c,
                 priority=self.priorities.get(c, 0),
                 specificity=tuple(specificities[c]),
                 tiebreak=self.tiebreaks.get(c, 0),
+                types=_registered_types(c),
+                signature=self.signatures.get(c, None),
             )
             for c in candidates
         ]
@@ -178,26 +199,22 @@ class MultiTypeMap(dict):
             getattr(c.handler, "__code__", None) for c in candidates
         }
 
-        processed = set()
-
         def _pull(candidates):
-            candidates = [c for c in candidates if c.handler not in processed]
-            if not candidates:
-                return
-            rval = [candidates[0]]
-            c1 = candidates[0]
-            for c2 in candidates[1:]:
-                if c1.dominates(c2):
-                    # Candidate 1 dominates candidate 2
-                    continue
-                else:
-                    processed.add(c2.handler)
-                    # Candidate 1 does not dominate candidate 2, so we add it
-                    # to the list.
-                    rval.append(c2)
-            yield rval
-            if len(rval) >= 1:
-                yield from _pull(candidates[1:])
+            # Successive ranks: the candidates no remaining candidate dominates
+            while candidates:
+                rval = [
+                    c2
+                    for c2 in candidates
+                    if not any(
+                        c1.dominates(c2) for c1 in candidates if c1 is not c2
+                    )
+                ]
+                if not rval:  # pragma: no cover
+                    rval = candidates[:1]
+                yield rval
+                candidates = [
+                    c for c in candidates if not any(c is r for r in rval)
+                ]
 
         return list(_pull(candidates))
 
@@ -220,6 +237,7 @@ class MultiTypeMap(dict):
         self.priorities[handler] = sig.priority
         self.tiebreaks[handler] = sig.tiebreak
         self.type_tuples[handler] = obj_t_tup
+        self.signatures[handler] = replace(sig, tiebreak=0)
         self.dependent[handler] = any(
             is_dependent(t[1] if isinstance(t, tuple) else t) for t in obj_t_tup
         )
